@@ -695,6 +695,19 @@ func (c *diskCache) get(ctx context.Context, kind cache.EntryKind, hash string, 
 		return nil, -1, nil
 	}
 
+	if size <= 0 && foundSize > 0 {
+		// The size was unknown when availableOrTryProxy ran, so no space
+		// has been reserved for this item yet. Now the backend told us.
+		c.mu.Lock()
+		err = c.lru.Reserve(foundSize)
+		c.mu.Unlock()
+		if err != nil {
+			return nil, -1, err
+		}
+		size = foundSize
+		unreserve = true
+	}
+
 	legacy := kind == cache.CAS && c.storageMode == casblob.Identity
 
 	blobPathBase := path.Join(c.dir, c.FileLocationBase(kind, legacy, hash, foundSize))
